@@ -21,10 +21,14 @@ def build(o):
         if not okc:
             o.obligation_broken("cargo build of the accept harness against /repo", outc)
             ok = False
-        okb, outb, _ = core.coq_build(["Proto/Accept.v"])
-        if not okb:
-            o.obligation_broken("coq build of the executable handshake model", outb)
-            return False
+        # the handshake model depends on nothing but gen/AcceptConsts.v: compile the two files
+        # directly (independent of the state of the other subsystems' project fragments)
+        for f in ("gen/AcceptConsts.v", "Proto/Accept.v"):
+            rc, outb, _ = core.sh(["coqc", "-Q", core.COQ, "Aldrin", os.path.join(core.COQ, f)],
+                                  cwd=core.COQ, timeout=600)
+            if rc != 0:
+                o.obligation_broken("coq build of the executable handshake model (" + f + ")", outb)
+                return False
         okd, outd = core.build_driver("ExtractAccept.v", "accept_model", "accept_driver.ml", "accept_driver")
         if not okd:
             o.obligation_broken("extraction/compilation of the handshake model driver", outd)
